@@ -689,6 +689,8 @@ class Interp(Exec):
                     raise PyRaise(VExc("AttributeError", []))
             return self.get_attr(base.val, name, node)
         if base is VNone:
+            if self.spec_mode:
+                return VObj(self.fresh("undef_attr", ObjSort))   # specifications are total: the value is only meaningful under `is not None`
             raise PyRaise(VExc("AttributeError", []))
         if isinstance(base, (VCont, VStr, VTuple)):
             return VMethod(base, name)
